@@ -5,6 +5,7 @@
 -/
 import IgrisModel.C20.Order
 import IgrisModel.C20.EventLemmas
+import IgrisModel.C20.SafeQLemmas
 namespace Igris.C20
 
 /-! ### system lock -/
@@ -450,5 +451,135 @@ theorem semaphore_accounting {prog s} (h : Ev.Reach prog s) (t : Ev.Tid) (rest :
   refine ⟨(Ev.reach_EI h).acct, ?_, ?_⟩
   · simp only [Ev.stepIdle]; split <;> simp <;> omega
   · simp only [Ev.stepIdle]; split <;> simp
+
+/-! ## safe_queue at the grain of its real steps: FIFO FROM the semaphore's exclusion
+
+`SQ.Reach`: sem.wait / start of the container operation (snapshot) / end of the
+operation (write-back) / sem.post are separate steps; a container operation is
+NOT atomic (two overlapping operations lose an update).  Any number of
+producers / consumers, any programs, every schedule. -/
+
+/-- the semaphore is a binary mutex: `sem ≤ 1`, at most one thread between
+    `sem.wait()` and `sem.post()`, `sem = 1` exactly when nobody is -/
+theorem safe_queue_critical_sections_exclusive {prog q0 s} (h : SQ.Reach prog q0 s) :
+    s.sem ≤ 1 ∧ (∀ t u, SQ.InCS (s.pc t) = true → SQ.InCS (s.pc u) = true → t = u) ∧
+    (s.sem = 1 ↔ ∀ t, SQ.InCS (s.pc t) = false) := by
+  rcases (SQ.reach_QI h).excl with ⟨a, b⟩ | ⟨a, k, b, c⟩
+  · refine ⟨by omega, fun t _ ht _ => ?_, fun _ => b, fun _ => a⟩
+    rw [b t] at ht; cases ht
+  · refine ⟨by omega, fun t u ht hu => (c t ht).trans (c u hu).symm, fun e => by omega, fun e => ?_⟩
+    rw [e k] at b; cases b
+
+/-- … therefore a running container operation always works on the CURRENT
+    content, and the content is the FIFO of the history: everything pushed =
+    everything popped, in order, followed by the content (nothing lost,
+    duplicated or reordered); per-producer order -/
+theorem safe_queue_fifo_from_exclusion {prog q0 s} (h : SQ.Reach prog q0 s) :
+    (∀ t op sn, s.pc t = .mid op sn → sn = s.queue) ∧
+    s.pushed = s.popped ++ s.queue ∧
+    (∀ p, (s.popped.filter (·.1 = p)) <+: (s.pushed.filter (·.1 = p))) := by
+  have hq := SQ.reach_QI h
+  refine ⟨hq.snap, hq.fifo, fun p => ?_⟩
+  rw [hq.fifo, List.filter_append]; exact List.prefix_append _ _
+example : ∃ s, SQ.Reach (fun t => if t = 0 then [.push 1] else []) [] s ∧ s.pc 0 = .mid (.push 1) [] :=
+  ⟨_, .step (t := 0) (.step (t := 0) .init rfl) rfl, by decide⟩
+
+/-- WITHOUT the semaphore the same code loses an item: two pushes overlap (both
+    inside the container operation at once), the second write-back overwrites
+    the first (kernel-checked 6-step schedule); with the semaphore the same
+    schedule keeps both -/
+theorem safe_queue_without_semaphore_witness :
+    let prog : SQ.Tid → List SQ.QOp := fun t => if t = 0 then [.push 1] else if t = 1 then [.push 2] else []
+    let mid := SQ.runSched false (SQ.init prog []) [0, 1, 0, 1]
+    let s := SQ.runSched false (SQ.init prog []) [0, 1, 0, 1, 0, 1]
+    (SQ.InCS (mid.pc 0) = true ∧ SQ.InCS (mid.pc 1) = true) ∧
+    s.pushed = [(0, 1), (1, 2)] ∧ s.queue = [(1, 2)] ∧ s.pushed ≠ s.popped ++ s.queue := by
+  decide
+example :
+    let prog : SQ.Tid → List SQ.QOp := fun t => if t = 0 then [.push 1] else if t = 1 then [.push 2] else []
+    (SQ.runSched true (SQ.init prog []) [0, 1, 0, 1, 0, 1, 0, 1, 1, 1, 1]).queue = [(0, 1), (1, 2)] := by
+  decide
+
+/-! ## system lock: statements over histories -/
+
+/-- `k` consecutive system_unlock calls of thread `t` -/
+def unlockN (t : Tid) : Nat → State → State
+  | 0, s => s
+  | k + 1, s => unlockN t k (sysUnlock s t)
+
+theorem unlockN_spec (t : Tid) : ∀ (k : Nat) (s : State), MI s → s.owner = some t → k ≤ s.depth →
+    MI (unlockN t k s) ∧ (unlockN t k s).depth = s.depth - k ∧
+    (unlockN t k s).owner = (if k = s.depth then none else some t) := by
+  intro k
+  induction k with
+  | zero =>
+    intro s hm ho _
+    have := (hm.own t ho).2
+    refine ⟨hm, rfl, ?_⟩
+    have : ¬ (0 = s.depth) := by omega
+    simp [unlockN, this, ho]
+  | succ k ih =>
+    intro s hm ho hk
+    have hd := (hm.own t ho).2
+    have hm1 : MI (sysUnlock s t) := sysUnlock_MI hm
+    have hdep : (sysUnlock s t).depth = s.depth - 1 := by simp [sysUnlock, ho, mtxUnlock]
+    by_cases h1 : s.depth = 1
+    · have hk0 : k = 0 := by omega
+      subst hk0
+      have ho1 : (sysUnlock s t).owner = none := by simp [sysUnlock, ho, mtxUnlock, h1]
+      refine ⟨hm1, by simp [unlockN, hdep], ?_⟩
+      simp [unlockN, ho1, h1]
+    · have ho1 : (sysUnlock s t).owner = some t := by
+        have : s.depth - 1 ≠ 0 := by omega
+        simp [sysUnlock, ho, mtxUnlock, this]
+      obtain ⟨a, b, c⟩ := ih (sysUnlock s t) hm1 ho1 (by rw [hdep]; omega)
+      refine ⟨a, by simp only [unlockN]; rw [b, hdep]; omega, ?_⟩
+      simp only [unlockN]; rw [c, hdep]
+      by_cases e : k = s.depth - 1
+      · have h2 : k + 1 = s.depth := by omega
+        rw [if_pos e, if_pos h2]
+      · have h2 : ¬ (k + 1 = s.depth) := by omega
+        rw [if_neg e, if_neg h2]
+
+/-- released only when EVERY nested acquisition has been undone, as a statement
+    about histories: in any reachable state (any schedule prefix, with spurious
+    returns) in which thread `t` holds the system lock at depth `d`, after any
+    `k < d` of its unlocks the lock is still its own and every other thread's
+    `system_lock` blocks, and after exactly `d` unlocks the lock is free and any
+    thread can take it -/
+theorem needs_exactly_depth_unlocks {prog q0 s} (h : ReachS prog q0 s) (t : Tid)
+    (ho : s.owner = some t) (k : Nat) (hk : k ≤ s.depth) :
+    (k < s.depth → (unlockN t k s).owner = some t ∧ ∀ u, u ≠ t → sysLock (unlockN t k s) u = none) ∧
+    (k = s.depth → (unlockN t k s).owner = none ∧ ∀ u, (sysLock (unlockN t k s) u).isSome) := by
+  obtain ⟨_, _, c⟩ := unlockN_spec t k s (reachS_MI h) ho hk
+  constructor
+  · intro hlt
+    have : ¬ (k = s.depth) := by omega
+    simp only [this, if_false] at c
+    refine ⟨c, fun u hu => ?_⟩
+    simp [sysLock, c]; exact fun e => hu e.symm
+  · intro he
+    rw [if_pos he] at c
+    refine ⟨c, fun u => ?_⟩
+    simp [sysLock, c]
+example : ∃ s, ReachS (fun t => if t = 0 then [.lock, .lock, .lock] else []) [] s ∧ s.owner = some 0 ∧ s.depth = 3 :=
+  ⟨_, .act (a := .run 0) (.act (a := .run 0) (.act (a := .run 0) .init rfl) rfl) rfl, by decide, by decide⟩
+
+/-- after system_lock_save the preconditions of system_lock_restore hold, and the
+    restore gives back exactly the depth and count the thread had: save ; restore
+    is the identity on (owner, depth, count t) from every reachable state in which
+    `t` owns the lock -/
+theorem save_then_restore {prog q0 s} (h : ReachS prog q0 s) (t : Tid) (ho : s.owner = some t) :
+    ∃ s', sysRestore (sysSave false s t) t = some s' ∧
+      s'.owner = some t ∧ s'.depth = s.depth ∧ s'.count t = s.count t ∧ s'.fault = s.fault := by
+  have hm := reachS_MI h
+  have hown := hm.own t ho
+  have hpos : 0 < s.count t := by omega
+  have hn : (s.count t).toNat = s.depth := by omega
+  have hd : 0 < s.depth := hown.2
+  simp only [sysSave, ho, hpos, and_self, if_true, Bool.false_eq_true, if_false]
+  rw [saveLoop_eq _ _ _ (by simp [hn])]
+  have hz : s.count t - (s.depth : Int) = 0 := by omega
+  simp [sysRestore, hn, hd, hpos, hz]
 
 end Igris.C20
